@@ -145,7 +145,7 @@ def check_case(case) -> Result:
 
     res = Result()
     o = case["oil"]
-    T, api, sg, gor, sal = o["T"], o["api"], o["sg"], o["gor"], case["salinity"]
+    T, api, sg, gor, sal = (*gens.oil_tuple(o), case["salinity"])
     tpc, ppc = case["tpc"], case["ppc"]
     pb = float(lib("pressure_bubblepoint_Standing", O.pressure_bubblepoint_Standing, T, api, sg, gor))
     if not (math.isfinite(pb) and pb > 50):
